@@ -53,10 +53,7 @@ func (j *JWTSession) SetExpiresAt(key fosite.TokenType, exp time.Time) {
 }
 
 func (j *JWTSession) GetExpiresAt(key fosite.TokenType) time.Time {
-	if j.ExpiresAt == nil {
-		j.ExpiresAt = make(map[fosite.TokenType]time.Time)
-	}
-
+	// a getter does not initialise the map: sessions are read by concurrent requests (a nil map reads as empty)
 	if _, ok := j.ExpiresAt[key]; !ok {
 		return time.Time{}
 	}
